@@ -246,7 +246,11 @@ Section Enc.
         | _ => None
         end
       else if bytes_eqb writer (B "JSONWriteTimeProp") then
-        match v with Some (FTime t) => Some (term, w_time t, true) | _ => None end
+        (* t.UTC().Year() outside 0..9999: nothing is written and the writer reports false *)
+        match v with
+        | Some (FTime t) => if time_writable t then Some (term, w_time t, true) else Some (term, [], false)
+        | _ => None
+        end
       else if bytes_eqb writer (B "JSONWriteDurationProp") then
         match v with
         | Some (FDur d) => match fmt_xsd_duration d with Some b => Some (term, dquote :: b ++ [dquote], true) | None => None end
